@@ -260,7 +260,7 @@ func verifC11DrawQ(t *rapid.T, w *verifC11World) *verifC11Q {
 			return &q
 		}
 	}
-	if k < 90 {
+	if k >= 80 && k < 90 {
 		// wildcard subjects: their snapshots and many of their live batches carry several events in one buffer item
 		var wild []verifC11Q
 		for _, q := range w.universe {
